@@ -80,6 +80,10 @@ func feedAll(c *Ctx, data []byte, sig string, expectReject bool) ([]decOutcome, 
 		}
 		for _, e := range ents {
 			dst := roaring.New()
+			if c.R.Chance(0.25) {
+				// decoders must also be safe on a receiver that was used before
+				dst, _ = reusedReceiver(c)
+			}
 			o := decOutcome{name: e.name}
 			pv, st := Try(func() { o.err = e.run(dst) })
 			c.Eval(1)
